@@ -66,8 +66,8 @@ theorem logEvs_s (async : Bool) (v : Vol) (m : Mutation) (dr : Nat) (tn : Bool) 
     (logEvs async v m dr tn).2.s = v.s := by
   unfold logEvs; cases async <;> rfl
 
-theorem writeEvs_s (async : Bool) (v : Vol) (m : Mutation) (rot : Bool) (dr : Nat) (tn : Bool) (junks : List Layer) :
-    (writeEvs async v m rot dr tn junks).2.s =
+theorem writeEvs_s (async : Bool) (v : Vol) (m : Mutation) (rot : Bool) (dr : Nat) (tn : Bool) :
+    (writeEvs async v m rot dr tn).2.s =
       if rot then rotate { v.s with w := m.apply v.s.w } else { v.s with w := m.apply v.s.w } := by
   unfold writeEvs
   cases rot with
@@ -77,8 +77,8 @@ theorem writeEvs_s (async : Bool) (v : Vol) (m : Mutation) (rot : Bool) (dr : Na
     show rotate (logEvs async _ m dr tn).2.s = _
     rw [logEvs_s]
 
-theorem compactEvs_queue (d : Disk) (v : Vol) (sizes : List Nat) :
-    (compactEvs d v sizes).2.queue = v.queue := by
+theorem compactEvs_queue (d : Disk) (v : Vol) (sizes : List Nat) {jk : List (Nat × Layer)} :
+    (compactEvs d v sizes jk).2.queue = v.queue := by
   rcases compactStep_spec2 v.s sizes with (he | ⟨pre, t0, sel', post, _, he⟩)
   · simp [compactEvs, he]
   · unfold compactEvs
@@ -91,8 +91,8 @@ theorem usable_rotate (s : State) : usable (rotate s) = usable s := by
   show ((flushStep s).isOpen && !(flushStep s).closed) = _
   rw [flushStep_isOpen, flushStep_closed]
 
-theorem compactEvs_s (d : Disk) (v : Vol) (sizes : List Nat) :
-    (compactEvs d v sizes).2.s = (compactStep v.s sizes).1 := by
+theorem compactEvs_s (d : Disk) (v : Vol) (sizes : List Nat) {jk : List (Nat × Layer)} :
+    (compactEvs d v sizes jk).2.s = (compactStep v.s sizes).1 := by
   rcases compactStep_spec2 v.s sizes with (he | ⟨pre, t0, sel', post, _, he⟩)
   · simp [compactEvs, he]
   · unfold compactEvs
@@ -107,7 +107,7 @@ theorem fsStep_s (async : Bool) (d : Disk) (v : Vol) (a : AStep) (hno : ∀ o, a
   | putB k val rot =>
     simp only [fsStep, step]
     rcases stepMut_putB v.s k val rot with (⟨kb, vb, rfl, rfl, hm, _, _, hp⟩ | ⟨hm, hp⟩)
-    · rw [hm, hp]; exact writeEvs_s _ _ _ _ _ _ _
+    · rw [hm, hp]; exact writeEvs_s _ _ _ _ _ _
     · rw [hm]; exact hp.symm
   | putS k val rot =>
     simp only [fsStep, step]
@@ -115,7 +115,7 @@ theorem fsStep_s (async : Bool) (d : Disk) (v : Vol) (a : AStep) (hno : ∀ o, a
     have hsame : stepMut v.s (.putS k val rot) = stepMut v.s (.putB (some k) (some val) rot) := rfl
     rw [hsame]
     rcases stepMut_putB v.s (some k) (some val) rot with (⟨kb, vb, hk, hv, hm, _, _, hp⟩ | ⟨hm, hp⟩)
-    · rw [hm, hp]; exact writeEvs_s _ _ _ _ _ _ _
+    · rw [hm, hp]; exact writeEvs_s _ _ _ _ _ _
     · rw [hm]; exact hp.symm
   | delB k =>
     simp only [fsStep, step, stepMut, deleteBytes]
@@ -123,7 +123,7 @@ theorem fsStep_s (async : Bool) (d : Disk) (v : Vol) (a : AStep) (hno : ∀ o, a
     | true =>
       have hn : (!v.s.isOpen || v.s.closed) = false := by rw [usable_not, hu]; rfl
       simp only [if_true, hn, Bool.false_eq_true, if_false]
-      exact writeEvs_s _ _ _ _ _ _ _
+      exact writeEvs_s _ _ _ _ _ _
     | false =>
       have hn : (!v.s.isOpen || v.s.closed) = true := by rw [usable_not, hu]; rfl
       simp [hn]
@@ -133,7 +133,7 @@ theorem fsStep_s (async : Bool) (d : Disk) (v : Vol) (a : AStep) (hno : ∀ o, a
     | true =>
       have hn : (!v.s.isOpen || v.s.closed) = false := by rw [usable_not, hu]; rfl
       simp only [if_true, hn, Bool.false_eq_true, if_false]
-      exact writeEvs_s _ _ _ _ _ _ _
+      exact writeEvs_s _ _ _ _ _ _
     | false =>
       have hn : (!v.s.isOpen || v.s.closed) = true := by rw [usable_not, hu]; rfl
       simp [hn]
@@ -163,7 +163,7 @@ theorem fsStep_s (async : Bool) (d : Disk) (v : Vol) (a : AStep) (hno : ∀ o, a
     | true =>
       have hn : (!v.s.isOpen || v.s.closed) = false := by rw [usable_not, hu]; rfl
       simp only [if_true, hn, Bool.false_eq_true, if_false]
-      show ({ (flushEvs (rotateEvs v jk).2 jk).2.s with closed := true } : State) = _
+      show ({ (flushEvs (rotateEvs v).2).2.s with closed := true } : State) = _
       rw [flushEvs_s]
       rfl
     | false =>
@@ -192,44 +192,44 @@ theorem usable_flush (s : State) : usable (flushStep s) = usable s := by
 theorem good3_L {x y : Disk} {v : Vol} (h : QS x v) (hg : Good3 x y) : GoodL (abs v.s) y :=
   ⟨hg.1, hg.2.trans h.serves⟩
 
-theorem flushS (v : Vol) (junks : List Layer) :
-    Seg (GoodL (abs v.s)) (fun x => QS x v) (flushEvs v junks).1 (fun x => QS x (flushEvs v junks).2) := by
+theorem flushS (v : Vol) :
+    Seg (GoodL (abs v.s)) (fun x => QS x v) (flushEvs v).1 (fun x => QS x (flushEvs v).2) := by
   intro x hx
   obtain ⟨⟨junk, ro, rc, tn, hq⟩, he⟩ := hx
-  obtain ⟨junk', hseg⟩ := flush_seg x v junk ro rc tn hq junks
+  obtain ⟨junk', hseg⟩ := flush_seg x v junk ro rc tn hq
   obtain ⟨g, q⟩ := hseg x rfl
   exact ⟨fun n => good3_L ⟨⟨junk, ro, rc, tn, hq⟩, he⟩ (g n), ⟨⟨junk', ro, rc, tn, q⟩, by rw [flushEvs_queue]; exact he⟩⟩
 
-theorem rotateS (v : Vol) (hu : usable v.s = true) (junks : List Layer) :
-    Seg (GoodL (abs v.s)) (fun x => QS x v) (rotateEvs v junks).1 (fun x => QS x (rotateEvs v junks).2) := by
+theorem rotateS (v : Vol) (hu : usable v.s = true) :
+    Seg (GoodL (abs v.s)) (fun x => QS x v) (rotateEvs v).1 (fun x => QS x (rotateEvs v).2) := by
   intro x hx
   have hinv := hx.inv
   have hqe : v.queue = [] := hx.2
   -- the flusher first
-  have h1 := flushS v junks
+  have h1 := flushS v
   -- then the tail, from the flushed state
-  have hv1s : (flushEvs v junks).2.s = flushStep v.s := flushEvs_s v
-  have hu1 : usable (flushEvs v junks).2.s = true := by rw [hv1s, usable_flush]; exact hu
-  have hp1 : (flushEvs v junks).2.s.flushPending = false := by rw [hv1s]; exact flushStep_pending _
-  have hq1 : (flushEvs v junks).2.queue = [] := by rw [flushEvs_queue]; exact hqe
-  have h2 : Seg (GoodL (abs v.s)) (fun y => QS y (flushEvs v junks).2)
-      [.walClose (flushEvs v junks).2.walCur, .walCreate ((flushEvs v junks).2.walCur + 1), .walHeader ((flushEvs v junks).2.walCur + 1)]
-      (fun y => QS y (rotateEvs v junks).2) := by
+  have hv1s : (flushEvs v).2.s = flushStep v.s := flushEvs_s v
+  have hu1 : usable (flushEvs v).2.s = true := by rw [hv1s, usable_flush]; exact hu
+  have hp1 : (flushEvs v).2.s.flushPending = false := by rw [hv1s]; exact flushStep_pending _
+  have hq1 : (flushEvs v).2.queue = [] := by rw [flushEvs_queue]; exact hqe
+  have h2 : Seg (GoodL (abs v.s)) (fun y => QS y (flushEvs v).2)
+      [.walClose (flushEvs v).2.walCur, .walCreate ((flushEvs v).2.walCur + 1), .walHeader ((flushEvs v).2.walCur + 1)]
+      (fun y => QS y (rotateEvs v).2) := by
     intro y hy
     obtain ⟨⟨junk, ro, rc, tn, hq⟩, he⟩ := hy
-    obtain ⟨g, q⟩ := rotTail_seg y (flushEvs v junks).2 junk ro rc tn hq hu1 hp1 hq1 y rfl
-    have habs : abs (flushEvs v junks).2.s = abs v.s := by rw [hv1s]; exact abs_flush hinv
+    obtain ⟨g, q⟩ := rotTail_seg y (flushEvs v).2 junk ro rc tn hq hu1 hp1 hq1 y rfl
+    have habs : abs (flushEvs v).2.s = abs v.s := by rw [hv1s]; exact abs_flush hinv
     refine ⟨fun n => ?_, ?_⟩
     · have := good3_L ⟨⟨junk, ro, rc, tn, hq⟩, he⟩ (g n)
       rw [habs] at this; exact this
     · refine ⟨⟨junk, rc, [], false, ?_⟩, rfl⟩
-      have : (rotateEvs v junks).2 = { s := rotate (flushEvs v junks).2.s, walCur := (flushEvs v junks).2.walCur + 1, walOld := some (flushEvs v junks).2.walCur, queue := [] } := by
-        have e0 : (rotateEvs v junks).2 = { s := rotate v.s, walCur := (flushEvs v junks).2.walCur + 1, walOld := some (flushEvs v junks).2.walCur, queue := [] } := rfl
+      have : (rotateEvs v).2 = { s := rotate (flushEvs v).2.s, walCur := (flushEvs v).2.walCur + 1, walOld := some (flushEvs v).2.walCur, queue := [] } := by
+        have e0 : (rotateEvs v).2 = { s := rotate v.s, walCur := (flushEvs v).2.walCur + 1, walOld := some (flushEvs v).2.walCur, queue := [] } := rfl
         rw [e0, hv1s, rotate_flush]
       rw [this]; exact q
-  have hev : (rotateEvs v junks).1 = (flushEvs v junks).1 ++ [.walClose (flushEvs v junks).2.walCur,
-      .walCreate ((flushEvs v junks).2.walCur + 1), .walHeader ((flushEvs v junks).2.walCur + 1)] := by
-    have e0 : (rotateEvs v junks).1 = (flushEvs v junks).1 ++ drainEvs (flushEvs v junks).2.walCur (flushEvs v junks).2.queue ++ [Ev.walClose (flushEvs v junks).2.walCur, Ev.walCreate ((flushEvs v junks).2.walCur + 1), Ev.walHeader ((flushEvs v junks).2.walCur + 1)] := rfl
+  have hev : (rotateEvs v).1 = (flushEvs v).1 ++ [.walClose (flushEvs v).2.walCur,
+      .walCreate ((flushEvs v).2.walCur + 1), .walHeader ((flushEvs v).2.walCur + 1)] := by
+    have e0 : (rotateEvs v).1 = (flushEvs v).1 ++ drainEvs (flushEvs v).2.walCur (flushEvs v).2.queue ++ [Ev.walClose (flushEvs v).2.walCur, Ev.walCreate ((flushEvs v).2.walCur + 1), Ev.walHeader ((flushEvs v).2.walCur + 1)] := rfl
     rw [e0, hq1]; simp [drainEvs]
   rw [hev]
   exact Seg.append h1 h2 x hx
@@ -246,10 +246,9 @@ theorem GoodL.toS {A B : Key → Option Bytes} {x : Disk} (h : GoodL A x) : Good
 theorem GoodL.toS' {A B : Key → Option Bytes} {x : Disk} (h : GoodL B x) : GoodS A B x := ⟨h.1, Or.inr h.2⟩
 
 /-- an accepted write, with or without a size-triggered rotation -/
-theorem writeStepS (v : Vol) (hu : usable v.s = true) (m : Mutation) (hm : m.ok = true) (rot : Bool) (dr : Nat) (tn : Bool)
-    (junks : List Layer) :
-    Seg (GoodS (abs v.s) (abs (writeEvs false v m rot dr tn junks).2.s)) (fun x => QS x v)
-      (writeEvs false v m rot dr tn junks).1 (fun x => QS x (writeEvs false v m rot dr tn junks).2) := by
+theorem writeStepS (v : Vol) (hu : usable v.s = true) (m : Mutation) (hm : m.ok = true) (rot : Bool) (dr : Nat) (tn : Bool) :
+    Seg (GoodS (abs v.s) (abs (writeEvs false v m rot dr tn).2.s)) (fun x => QS x v)
+      (writeEvs false v m rot dr tn).1 (fun x => QS x (writeEvs false v m rot dr tn).2) := by
   have hw := writeS v hu m hm
   cases rot with
   | false => exact hw
@@ -257,8 +256,8 @@ theorem writeStepS (v : Vol) (hu : usable v.s = true) (m : Mutation) (hm : m.ok 
     intro x hx
     have hinv1 : Inv (wrote v m).s := wrote_inv hx.inv hu m hm
     have hu1 : usable (wrote v m).s = true := hu
-    have hr := rotateS (wrote v m) hu1 junks
-    have hB : abs (writeEvs false v m true dr tn junks).2.s = abs (wrote v m).s := by
+    have hr := rotateS (wrote v m) hu1
+    have hB : abs (writeEvs false v m true dr tn).2.s = abs (wrote v m).s := by
       rw [writeEvs_s]
       exact abs_rotate hinv1 hu1
     rw [hB]
@@ -279,20 +278,20 @@ theorem syncStep (d : Disk) (v : Vol) (a : AStep) (h : QS d v) :
     fun hs => hs.weaken (fun x hx => hx ▸ h) (fun _ hq => hq)
   have hmut : ∀ (st' : Step) (rot : Bool), (∀ m, stepMut v.s st' = some m → usable v.s = true ∧ m.ok = true) →
       Seg (GoodS (abs v.s) (abs (match stepMut v.s st' with
-          | some m => writeEvs false v m rot dr tn junks
+          | some m => writeEvs false v m rot dr tn
           | none => ([], v)).2.s)) (fun x => x = d)
         (match stepMut v.s st' with
-          | some m => writeEvs false v m rot dr tn junks
+          | some m => writeEvs false v m rot dr tn
           | none => ([], v)).1
         (fun x => QS x (match stepMut v.s st' with
-          | some m => writeEvs false v m rot dr tn junks
+          | some m => writeEvs false v m rot dr tn
           | none => ([], v)).2) := by
     intro st' rot hok
     cases hm : stepMut v.s st' with
     | none => exact hnil _
     | some m =>
       obtain ⟨hu, hmo⟩ := hok m hm
-      exact hstart (writeStepS v hu m hmo rot dr tn junks)
+      exact hstart (writeStepS v hu m hmo rot dr tn)
   cases st with
   | putB k val rot =>
     apply hmut (.putB k val rot) rot
@@ -337,9 +336,9 @@ theorem syncStep (d : Disk) (v : Vol) (a : AStep) (h : QS d v) :
     | false => exact hnil _
     | true =>
       simp only [if_true]
-      exact hstart ((rotateS v hu junks).good_mono (fun y hy => hy.toS))
+      exact hstart ((rotateS v hu).good_mono (fun y hy => hy.toS))
   | flush =>
-    exact hstart ((flushS v junks).good_mono (fun y hy => hy.toS))
+    exact hstart ((flushS v).good_mono (fun y hy => hy.toS))
   | compact sizes =>
     simp only [fsStep]
     cases hu : usable v.s with
@@ -348,7 +347,7 @@ theorem syncStep (d : Disk) (v : Vol) (a : AStep) (h : QS d v) :
       simp only [if_true]
       intro x hx; subst hx
       obtain ⟨⟨junk, ro, rc, tn, hq⟩, he⟩ := h
-      obtain ⟨g, q⟩ := compact_seg x v junk ro rc tn hq sizes x rfl
+      obtain ⟨g, q⟩ := compact_seg x v junk ro rc tn hq sizes junks x rfl
       refine ⟨fun n => (good3_L ⟨⟨junk, ro, rc, tn, hq⟩, he⟩ (g n)).toS, ⟨⟨junk, ro, rc, tn, q⟩, ?_⟩⟩
       rw [compactEvs_queue]; exact he
   | close =>
@@ -358,20 +357,20 @@ theorem syncStep (d : Disk) (v : Vol) (a : AStep) (h : QS d v) :
     | true =>
       simp only [if_true]
       -- rotate, let the flusher finish, close the file
-      have h1 := rotateS v hu junks
+      have h1 := rotateS v hu
       have hinv := h.inv
-      have hA1 : abs (rotateEvs v junks).2.s = abs v.s := abs_rotate hinv hu
-      have h2 : Seg (GoodL (abs v.s)) (fun x => QS x (rotateEvs v junks).2) (flushEvs (rotateEvs v junks).2 junks).1
-          (fun x => QS x (flushEvs (rotateEvs v junks).2 junks).2) := by
-        have := flushS (rotateEvs v junks).2 junks
+      have hA1 : abs (rotateEvs v).2.s = abs v.s := abs_rotate hinv hu
+      have h2 : Seg (GoodL (abs v.s)) (fun x => QS x (rotateEvs v).2) (flushEvs (rotateEvs v).2).1
+          (fun x => QS x (flushEvs (rotateEvs v).2).2) := by
+        have := flushS (rotateEvs v).2
         rw [hA1] at this; exact this
-      have h3 : Seg (GoodL (abs v.s)) (fun x => QS x (flushEvs (rotateEvs v junks).2 junks).2)
-          [.walClose (flushEvs (rotateEvs v junks).2 junks).2.walCur]
-          (fun x => QS x { (flushEvs (rotateEvs v junks).2 junks).2 with s := { (flushEvs (rotateEvs v junks).2 junks).2.s with closed := true } }) := by
+      have h3 : Seg (GoodL (abs v.s)) (fun x => QS x (flushEvs (rotateEvs v).2).2)
+          [.walClose (flushEvs (rotateEvs v).2).2.walCur]
+          (fun x => QS x { (flushEvs (rotateEvs v).2).2 with s := { (flushEvs (rotateEvs v).2).2.s with closed := true } }) := by
         intro x hx
-        have hA2 : abs (flushEvs (rotateEvs v junks).2 junks).2.s = abs v.s := by
+        have hA2 : abs (flushEvs (rotateEvs v).2).2.s = abs v.s := by
           rw [flushEvs_s]
-          have : Inv (rotateEvs v junks).2.s := rotate_inv _ hinv (by rw [← usable_eq]; exact hu)
+          have : Inv (rotateEvs v).2.s := rotate_inv _ hinv (by rw [← usable_eq]; exact hu)
           rw [abs_flush this]; exact hA1
         have hgood : GoodL (abs v.s) x := ⟨hx.diskOk, hx.serves.trans hA2⟩
         refine ⟨fun n => ?_, ?_⟩
@@ -379,17 +378,17 @@ theorem syncStep (d : Disk) (v : Vol) (a : AStep) (h : QS d v) :
           | zero => exact hgood
           | succ n => rw [List.take_succ_cons, List.take_nil]; exact hgood
         · -- closing the database: the remaining files are leftovers
-          have hxe : applyEvs x [Ev.walClose (flushEvs (rotateEvs v junks).2 junks).2.walCur] = x := rfl
+          have hxe : applyEvs x [Ev.walClose (flushEvs (rotateEvs v).2).2.walCur] = x := rfl
           rw [hxe]
           obtain ⟨⟨junk, ro, rc, tn, hq⟩, he⟩ := hx
-          have hus : usable (flushEvs (rotateEvs v junks).2 junks).2.s = true := by
+          have hus : usable (flushEvs (rotateEvs v).2).2.s = true := by
             rw [flushEvs_s, usable_flush]
             show usable (rotate v.s) = true
             rw [usable_rotate]; exact hu
-          have hpf : (flushEvs (rotateEvs v junks).2 junks).2.s.flushPending = false := by
+          have hpf : (flushEvs (rotateEvs v).2).2.s.flushPending = false := by
             rw [flushEvs_s]; exact flushStep_pending _
           obtain ⟨hwd, hw, _⟩ := hq.live hus
-          have hwz : (flushEvs (rotateEvs v junks).2 junks).2.s.w = [] := by
+          have hwz : (flushEvs (rotateEvs v).2).2.s.w = [] := by
             rw [flushEvs_s, flushStep_w]; rfl
           rw [he, List.append_nil, hwz] at hw
           have hrc : rc = [] := applyMuts_eq_nil hw
@@ -397,16 +396,16 @@ theorem syncStep (d : Disk) (v : Vol) (a : AStep) (h : QS d v) :
             cases tn with
             | false => rfl
             | true => exact absurd he (hq.tnq rfl)
-          have hnu : usable ({ (flushEvs (rotateEvs v junks).2 junks).2.s with closed := true } : State) = false := by
+          have hnu : usable ({ (flushEvs (rotateEvs v).2).2.s with closed := true } : State) = false := by
             unfold usable; simp
-          refine ⟨⟨junk ++ [{ num := (flushEvs (rotateEvs v junks).2 junks).2.walCur }], [], [], false, ?_⟩, he⟩
+          refine ⟨⟨junk ++ [{ num := (flushEvs (rotateEvs v).2).2.walCur }], [], [], false, ?_⟩, he⟩
           exact {
             inv := by
               have hc := close_inv v.s hinv (by rw [← usable_eq]; exact hu)
-              have : ({ (flushEvs (rotateEvs v junks).2 junks).2.s with closed := true } : State) =
+              have : ({ (flushEvs (rotateEvs v).2).2.s with closed := true } : State) =
                   { flushStep (rotate v.s) with closed := true } := by
                 rw [flushEvs_s]; rfl
-              show Inv ({ (flushEvs (rotateEvs v junks).2 junks).2.s with closed := true } : State)
+              show Inv ({ (flushEvs (rotateEvs v).2).2.s with closed := true } : State)
               rw [this]; exact hc
             tables := hq.tables
             comps := hq.comps
@@ -418,11 +417,11 @@ theorem syncStep (d : Disk) (v : Vol) (a : AStep) (h : QS d v) :
               subst hf
               exact ⟨rfl, rfl, rfl⟩)
             wal := by
-              have l1 : liveFiles (flushEvs (rotateEvs v junks).2 junks).2 ro rc tn =
-                  [{ num := (flushEvs (rotateEvs v junks).2 junks).2.walCur, recs := rc, torn := tn }] := by
+              have l1 : liveFiles (flushEvs (rotateEvs v).2).2 ro rc tn =
+                  [{ num := (flushEvs (rotateEvs v).2).2.walCur, recs := rc, torn := tn }] := by
                 simp [liveFiles, hus, hpf]
-              have l2 : liveFiles { (flushEvs (rotateEvs v junks).2 junks).2 with s := { (flushEvs (rotateEvs v junks).2 junks).2.s with closed := true } } [] [] false = [] := by
-                show (if usable ({ (flushEvs (rotateEvs v junks).2 junks).2.s with closed := true } : State) = true then _ else []) = []
+              have l2 : liveFiles { (flushEvs (rotateEvs v).2).2 with s := { (flushEvs (rotateEvs v).2).2.s with closed := true } } [] [] false = [] := by
+                show (if usable ({ (flushEvs (rotateEvs v).2).2.s with closed := true } : State) = true then _ else []) = []
                 rw [hnu]; rfl
               show x.wal = _ ++ liveFiles _ [] [] false
               rw [hq.wal, l1, l2, hrc, htn, List.append_nil]
@@ -436,12 +435,12 @@ theorem syncStep (d : Disk) (v : Vol) (a : AStep) (h : QS d v) :
               intro hf
               rw [hwd] at hf; cases hf }
       have hfin := Seg.append (Seg.append h1 h2) h3
-      have hB : abs ({ (flushEvs (rotateEvs v junks).2 junks).2.s with closed := true } : State) = abs v.s := by
-        show abs (flushEvs (rotateEvs v junks).2 junks).2.s = abs v.s
+      have hB : abs ({ (flushEvs (rotateEvs v).2).2.s with closed := true } : State) = abs v.s := by
+        show abs (flushEvs (rotateEvs v).2).2.s = abs v.s
         rw [flushEvs_s]
-        have : Inv (rotateEvs v junks).2.s := rotate_inv _ hinv (by rw [← usable_eq]; exact hu)
+        have : Inv (rotateEvs v).2.s := rotate_inv _ hinv (by rw [← usable_eq]; exact hu)
         rw [abs_flush this]; exact hA1
-      show Seg (GoodS (abs v.s) (abs ({ (flushEvs (rotateEvs v junks).2 junks).2.s with closed := true } : State))) _ _ _
+      show Seg (GoodS (abs v.s) (abs ({ (flushEvs (rotateEvs v).2).2.s with closed := true } : State))) _ _ _
       rw [hB]
       exact hstart (hfin.good_mono (fun y hy => hy.toS))
   | reopen o =>
